@@ -520,7 +520,8 @@ pub fn record_orders(args: &Args) {
             // block), where node depths exceed the width of a machine word; the tables are then taken for a sample of the leaves
             // (the deepest ones included) closed under lca
             let deep = rng.chance(1, 12);
-            let n = if deep { rng.range(66, 90) } else { rng.range(1, 6) };
+            // (a third of the deep ones have 130 .. 250 leaves: in-order indices beyond 255)
+            let n = if deep { if rng.chance(1, 3) { rng.range(130, 250) } else { rng.range(66, 90) } } else { rng.range(1, 6) };
             let mut labels = rng.perm(n + 2);
             labels.truncate(n); // labels need not be dense
             let t = if deep {
